@@ -24,6 +24,8 @@ RULE = ("structured URL strings and random build()/modifier programs in auto-enc
 def run(ctx):
     progs = suites.standard_programs(ctx, 6000 if ctx.quick else 80000, 6000 if ctx.quick else 80000)
     progs = [p for p in progs if suites.is_autoenc(p)]
+    # URLs that were used as the SOURCE of another derivation before they are printed and re-parsed
+    progs += [p + [["derive"] + ctx.rng.choice(suites.DERIVE_OPS)] for p in progs[:: (4 if ctx.quick else 3)]]
     progs = [f["witness"] for f in ctx.findings if f.get("witness")] + progs
     outs = suites.observe(ctx, "C03-stage1", progs)
     st2 = suites.second_stage(ctx, "C03-stage2-reparse", outs,
